@@ -45,11 +45,18 @@ def OpOffers (offered : Bytes → Prop) : Op Id → Prop
   | .put _ s => offered s.data1
   | _ => True
 
-/-- histories: from an undamaged cache, any sequence of operations, each with at most one fault. -/
+/-- what `Trim` does to the directory: it removes a file (any file: modification times, by which Trim
+selects, are not modelled, so every selection is covered). -/
+def FS.remove (fs : FS Id Hsh) (q : Name Id Hsh) : FS Id Hsh :=
+  { fs with names := fun p => if p = q then none else fs.names p }
+
+/-- histories: from an undamaged cache, any sequence of operations, each with at most one fault, and of
+removals of files by Trim. -/
 inductive Hist (P : Params Id Hsh) (offered : Bytes → Prop) : FS Id Hsh → Prop
   | init {fs : FS Id Hsh} : FSInv P offered fs → Hist P offered fs
   | op {fs fs' : FS Id Hsh} {now : Int} {proc : Nat} {op : Op Id} {o : Outcome Hsh} :
       Hist P offered fs → OpOffers offered op → OpExec P now proc op fs fs' o → Hist P offered fs'
+  | trim {fs : FS Id Hsh} (q : Name Id Hsh) : Hist P offered fs → Hist P offered (fs.remove q)
 
 variable {P : Params Id Hsh} {offered : Bytes → Prop} {now : Int} {proc : Nat}
 
